@@ -610,3 +610,43 @@ Definition wstep (w : world) (o : wop) : world * wout :=
     end
   | OpStats => (w, OutStats (w_run w))
   end.
+
+(* ---------------------------------------------------------------- an undisturbed run *)
+
+(* one pass (collect + complete) with no user operation in between and every move decided by
+   `decide` (a decision vector per pass; [] = every move Copy).  None = a panic or a failed
+   handler call. *)
+Definition one_pass (st : dstate) (c : dctx) (mb ma : Z) (ds ord : list Z)
+  : option (dstate * dctx * pass * list move) :=
+  match collect_moves st c (pass_init mb ma) with
+  | (cs, WPanic _) => None
+  | (cs, _) =>
+    let c1 := mkC (c_algo c) (cs_moves cs) (c_immovable c) in
+    let r := complete_pass (cs_st cs) c1 (cs_pass cs) ds ord in
+    match r_kind r with
+    | ROk => Some (r_st r, r_ctx r, r_pass r, cs_moves cs)
+    | _ => None
+    end
+  end.
+
+Inductive runres :=
+| RunDone (st : dstate) (passes : nat) (acc : pstats)   (* a pass proposed no move *)
+| RunFailed
+| RunOutOfFuel.
+
+(* passes with every move copied, until a pass proposes nothing; acc = DefragmentationStats.Add
+   of every pass (vam: DefragmentationContext.stats) *)
+Fixpoint run_copy (fuel : nat) (st : dstate) (c : dctx) (mb ma : Z) (acc : pstats) (n : nat) : runres :=
+  match fuel with
+  | O => RunOutOfFuel
+  | S f =>
+    match one_pass st c mb ma [] [] with
+    | None => RunFailed
+    | Some (st', c', p', ms) =>
+      let acc' := ps_add acc (p_stats p') in
+      match ms with
+      | [] => RunDone st' n acc'
+      | _ => run_copy f st' c' mb ma acc' (S n)
+      end
+    end
+  end.
